@@ -46,6 +46,17 @@ pub fn generate(g: &mut Gen) {
             single_layer(g, spec, Sh::Flat(4), &format!("dense/{}", act));
         }
     }
+    // every layer kind next to every other (incl. feedback blocks), flat and spatial entry
+    for (net, _) in [zoo_net2(g, 1), zoo_flat(g)] {
+        let x = input_for(g, &net.input);
+        g.push(format!("net {} predict {}", net.token(), qt(&x)), Tol::Tight, "zoo", true);
+    }
+    for c in 1..=2usize {
+        let (net, _) = zoo_net(g, c);
+        let x = input_for(g, &net.input);
+        g.push(format!("net {} predict {}", net.token(), qt(&x)), Tol::Tight, "zoo", true);
+        g.push(format!("net {} forward {}", net.token(), qt(&x)), Tol::Tight, "zoo", true);
+    }
     // seeded random stream: chains
     for _ in 0..g.n(120, 2500) {
         let (net, _) = random_net(g, &cfg);
